@@ -111,6 +111,33 @@ Theorem gated_screen_is_stack : forall w, 1 <= w -> forall f0 ops, is_ansi f0 ->
 Proof. exact gated_screen_lemma. Qed.
 Print Assumptions gated_screen_is_stack.
 
+(* (d) A section STARTS with the settings of its output: after output.section() the new section's quiet flag and verbosity
+   are those the output has at that moment (and its indentation too) - so what a quiet output would refuse is refused
+   through its sections as well, until set_quiet / set_verbosity are called on the section itself.  (The code before
+   /repo e696a15 built every section not quiet, verbosity NORMAL.) *)
+Theorem section_starts_with_its_outputs_settings : forall gs,
+  g_secs (gates_step gs GCreate) = g_secs gs ++ [g_parent gs] /\ sop_of gs GCreate = Some (SCreate (g_pindent gs)).
+Proof. exact created_inherits. Qed.
+Print Assumptions section_starts_with_its_outputs_settings.
+(* ... hence: whatever a section of a quiet output is asked to write, overwrite, clear or record before anybody touches its
+   own settings leaves no trace *)
+Theorem section_of_quiet_output_is_silent : forall ansi w st gs f o i,
+  g_quiet (g_parent gs) = true -> i = length (g_secs gs) ->
+  (match o with GWrite j _ _ _ | GOverwrite j _ | GClear j _ | GAddContent j _ => j = i | _ => False end) ->
+  forall st1 gs1 f1 e1, gstep ansi w st gs f GCreate = Ok (st1, gs1, f1, e1) ->
+  gstep ansi w st1 gs1 f1 o = Ok (st1, gs1, f1, []).
+Proof.
+  intros ansi w st gs f o i Hq Hi Ho st1 gs1 f1 e1 H1. apply refused_invisible.
+  unfold gstep in H1. cbn [sop_of allowed] in H1.
+  destruct (sec_step ansi w st f (SCreate (g_pindent gs))) as [[[a b] c]|]; cbn [bind fst snd] in H1; [|discriminate].
+  inversion H1; subst gs1.
+  assert (forall fl, asks (gates_step gs GCreate) (length (g_secs gs)) fl = false) as HA.
+  { intros fl. unfold asks, gate_of. cbn [gates_step with_secs g_secs]. rewrite app_nth2 by apply le_n. rewrite PeanoNat.Nat.sub_diag. cbn [nth].
+    rewrite Hq. reflexivity. }
+  destruct o; try contradiction; cbn [allowed]; subst; apply HA.
+Qed.
+Print Assumptions section_of_quiet_output_is_silent.
+
 (* the groups of calls the driver runs (run_C10S) are the run of their concatenation, one emit list per group *)
 Theorem groups_are_one_run : forall ansi w groups st gs f st' gs' f' ess,
   grun_groups ansi w st gs f groups = Ok (st', gs', f', ess) ->
@@ -162,4 +189,17 @@ Example c10_refused_clear_leaves_no_trace :
                                           GSetQuiet 1 false; GWrite 0 t_later None true]
   | Err _ => False
   end.
+Proof. vm_compute. repeat split. Qed.
+
+(* the two pristine findings of the reflection-driven table, on the model of the repaired code:
+   a quiet OUTPUT, then section(), then write_line into it: nothing; the public add_content of a quiet section, then a write
+   into the older section: the text is nowhere *)
+Example c10_section_of_quiet_output_and_add_content :
+  (match grun true 10 [] gates0 g_f [GParentQuiet true; GCreate; GWrite 0 t_mark None true] with
+   | Ok (st, gs, _, es) => es = [] /\ map sc_content st = [[]] /\ map g_quiet (g_secs gs) = [true] | Err _ => False end) /\
+  (match grun true 10 [] gates0 g_f [GCreate; GCreate; GWrite 0 t_older None true; GSetQuiet 1 true; GAddContent 1 t_mark;
+                                     GWrite 0 t_later None true] with
+   | Ok (st, _, _, es) => rows (feed 10 term_init es) = [t_older; t_later; []] /\ map sc_content st = [[t_older; t_later]; []]
+                          /\ existsb (fun e => match e with Ch 77%N => true | _ => false end) es = false
+   | Err _ => False end).
 Proof. vm_compute. repeat split. Qed.
